@@ -67,3 +67,26 @@ def feed(pieces, threshold, budget_scale=1.0, use_budget=True):
         res.after.append({"data_len": buf.data_len, "delivered": len(res.delivered), "fed": len(fed),
                           "suffix_ok": fed.endswith(data), "data": data if len(data) < 200 else None})
     return res
+
+
+def guard_process(patch):
+    """Wrap Buffer.process (class attribute) so that EVERY call, also those made
+    by the real connection handlers inside the event loop, runs under the
+    logical step budget.  A HangDetected then ends the calling task, where the
+    LoopMonitor finds it."""
+    from indi.transport.buffer import Buffer
+    sb = stepbudget()
+    stats = {"calls": 0, "max_steps": 0}
+
+    def make(orig):
+        def process(self, callback):
+            stats["calls"] += 1
+            try:
+                return sb.run(budget_for(self.data), orig, self, callback)
+            finally:
+                if sb.steps > stats["max_steps"]:
+                    stats["max_steps"] = sb.steps
+        return process
+
+    patch.wrap(Buffer, "process", make)
+    return stats
